@@ -157,6 +157,23 @@ struct ScanRecord {
     bool null_value{false};
 };
 
+// triage detail for a failed range read: what it produced and which (node, version) pairs it recorded, with the node's version now
+inline std::string describe_range_read(const ScanRecord& r) {
+    std::string t = "\n  rc=" + std::to_string(static_cast<int>(r.rc)) + " final_rc=" + std::to_string(static_cast<int>(r.final_rc)) + " result:";
+    for (auto& it : r.items) { t += " \"" + vf::show(it.first) + "\""; }
+    t += "\n  recorded:";
+    for (auto& nv : r.nvv) {
+        char buf[160];
+        node_version64_body now = nv.second->get_body();
+        std::snprintf(buf, sizeof(buf), " %p{ins=%u split=%u del=%d root=%d}->{ins=%u split=%u del=%d root=%d}", static_cast<void*>(nv.second),
+                      static_cast<unsigned>(nv.first.get_vinsert_delete()), static_cast<unsigned>(nv.first.get_vsplit()), nv.first.get_deleted() ? 1 : 0,
+                      nv.first.get_root() ? 1 : 0, static_cast<unsigned>(now.get_vinsert_delete()), static_cast<unsigned>(now.get_vsplit()),
+                      now.get_deleted() ? 1 : 0, now.get_root() ? 1 : 0);
+        t += buf;
+    }
+    return t;
+}
+
 struct Scenario {
     std::string prefix;
     std::vector<std::string> init_keys;
@@ -861,22 +878,19 @@ inline vf::CaseResult run_scenario(const Profile& pf, const Scenario& sc, const 
         find_storage("s", &ti);
         // layer roots before the run (open finding classification for cursors)
         std::map<std::string, base_node*> roots_before;
-        if (pf.w_cursor != 0) {
-            vf::WalkOut w0 = vf::walk(ti);
-            for (auto& e : w0.entries) {
-                std::size_t d = e.key.empty() ? 0 : (e.key.size() - 1) / 8;
-                roots_before[e.key.substr(0, 8 * d)] = e.layer_root;
-            }
-        }
-        // trigger of the open finding C10/cursor_layer_root_replaced_skip for a key: the root node of the layer (>= 1) that holds
-        // the key, as recorded before the run, lost its root flag (root split) or is a deleted interior (collapsed)
+        if (pf.w_cursor != 0) { roots_before = vf::walk(ti).layer_roots; }
+        // trigger of the open finding C10/cursor_layer_root_replaced_skip for a key: the root node of a layer (>= 1) on the key's
+        // path, as recorded before the run, lost its root flag (root split) or is a deleted interior (collapsed).  Every layer
+        // above the key's own counts: the cursor resumes each stacked layer from its saved root.
         auto layer_root_replaced = [&roots_before](const std::string& key) {
             if (key.size() <= 8) { return false; }
-            std::size_t d = (key.size() - 1) / 8;
-            auto it = roots_before.find(key.substr(0, 8 * d));
-            if (it == roots_before.end() || it->second == nullptr) { return false; }
-            node_version64_body rv = it->second->get_version();
-            return (!rv.get_root() && !rv.get_deleted()) || (rv.get_deleted() && !rv.get_border());
+            for (std::size_t d = 1; d <= (key.size() - 1) / 8; ++d) {
+                auto it = roots_before.find(key.substr(0, 8 * d));
+                if (it == roots_before.end() || it->second == nullptr) { continue; }
+                node_version64_body rv = it->second->get_version();
+                if ((!rv.get_root() && !rv.get_deleted()) || (rv.get_deleted() && !rv.get_border())) { return true; }
+            }
+            return false;
         };
         // ---- scheduled run
         Exec ex(sc);
@@ -1106,7 +1120,7 @@ inline vf::CaseResult run_scenario(const Profile& pf, const Scenario& sc, const 
                             failx(cursor && start_tuple_conflict(sc, o, h.key) ? "cursor_start_tuple_inserted"
                                           : (cursor && layer_root_replaced(h.key) ? "cursor_layer_root_replaced_skip" : "insert_neither_seen_nor_stale"), "insert of \"" + show(h.key) + "\" (T" + std::to_string(h.thread) + ") is not in the " +
                                                                          (cursor ? "cursor" : "scan") + " result and every recorded node version is unchanged (recorded=" +
-                                                                         std::to_string(r.nvv.size()) + ")");
+                                                                         std::to_string(r.nvv.size()) + ")" + describe_range_read(r));
                         }
                     }
                     if (r.nvv.empty() && r.rc == status::OK && !cursor) { failx("empty_node_set", "scan returned an empty node set"); }
